@@ -8,7 +8,7 @@ from .. import oracles as orc
 from ..gen import J, JI
 
 PROP = "C06"
-HOSTILE = ('scale', 'mean')
+HOSTILE = ('scale', 'mean', 'special')
 MONITORS = ("WF", "DENS", "CACHE")
 ANCHORS = [("pdf.py", "GaussianPDF.condition_on"), ("pdf.py", "GaussianPDF.condition_on_explicit"),
            ("conditional.py", "ConditionalGaussianPDF.get_conditional_mu"),
